@@ -45,10 +45,12 @@ func init() {
 		Assume:   []string{},
 	})
 	register(&PropConfig{
-		ID:       "C16",
-		Probes:   []string{"runtime.cacheStrings#probe", "generator.RangeWriter.closeLiteral#probe"},
-		Replay:   replayC16,
-		Packages: []string{"./parser/v2", "./generator", "./runtime"},
+		ID:     "C16",
+		Probes: []string{"runtime.cacheStrings#probe", "generator.RangeWriter.closeLiteral#probe"},
+		// the development-mode text file writer (FSEventHandler.generate) is outside the executor's subset: bounded stand-in
+		QuickProbes: []string{"generatecmd.FSEventHandler.generate#probe"},
+		Replay:      replayC16,
+		Packages:    []string{"./parser/v2", "./generator", "./runtime"},
 		Assume: []string{
 			"strconv.Unquote of a quoted literal body agrees with the Go compiler on that literal; strings.Split(strings.Join(L, \"\\n\"), \"\\n\") == L for line-feed-free parts (library facts, not mechanised)",
 			"cmd/templ/generatecmd FSEventHandler.generate writes strings.Join(output.Literals, \"\\n\") to the text file and decides recompilation by generator.HasChanged(previous, output): read off the code, the function is outside the executor's subset (map with pointer-holding values)",
